@@ -19,7 +19,7 @@ MINIMISE_OPS = True
 EVIDENCE = {
     'rule': 'Each run builds a Swarm of 1-6 members (instrumented members through the factory seam, or real '
             'SyncCrazyflie members over simulated firmware) and executes a sequence of open_links / sequential / parallel / '
-            'parallel_safe / close_links calls with seeded argument dictionaries, a seeded subset of members whose action '
+            'parallel_safe / close_links calls with seeded argument dictionaries (keys in shuffled order), a seeded subset of members whose action '
             'or link opening raises, and seeded blocking inside the actions; member threads interleave at line granularity.',
     'directed': 'every subset of failing members for swarm sizes 1..4 (5 in the thorough tier), for open_links and for '
                 'parallel_safe',
